@@ -308,6 +308,11 @@ class DSDLDefinition(ReadableDSDLFile):
             raise ex
         except (MemoryError, SystemError):  # pragma: no cover
             raise
+        except RecursionError:
+            # The call stack may also run out after parsing, while the type is being constructed (see the parser).
+            raise _parser.DSDLSyntaxError(
+                "The definition is nested too deeply to be processed", path=self.file_path
+            ) from None
         except Exception as ex:  # pragma: no cover
             raise InternalError(culprit=ex, path=self.file_path) from ex
 
